@@ -46,8 +46,8 @@ LEVEL_TEXT = ("see lean/Ctrmml/Properties/C01.lean: rewrite soundness over Spec/
               "skips included, passed stack_depth < max_loop_stack), C01_sub_budget_covers_source (every event of the phrase a subroutine is made from passed stack_depth < "
               "max_src_stack = the validator's 10 frames, C01_src_stack_le_limit), C01_fold_keeps_depth_partial / C01_loop_pass_keeps_valid_partial (the loop branch of apply_match / "
               "a whole loop-fold pass keeps every track valid - no validator run needed - under the extra hypothesis StackSoundAt: the stack analysis is right that the period has "
-              "one frame of headroom; a map that underestimates a base usage breaks the fold: Ex2.D28_witness, Ex2.stackSound_needed - the answer of analyze_stack before repo 6fc8560); "
-              "stack analysis (repair of D28, repo 6fc8560: the unused macro tracks are marked base_usage = 100 AFTER the loop over all tracks, so a later unused caller raises the base "
+              "one frame of headroom; a map that underestimates a base usage breaks the fold: Ex2.D28_witness, Ex2.stackSound_needed - the answer of analyze_stack before repo f7fbaab); "
+              "stack analysis (repair of D28, repo f7fbaab: the unused macro tracks are marked base_usage = 100 AFTER the loop over all tracks, so a later unused caller raises the base "
               "usage of the chain below it): C01_analyzeStack_marks_after (a normal return is the map of the first loop with base_usage = 100 on exactly the collected unused roots), "
               "Ex2.D28_regression (the repaired answer on the D28 song fails the stack test, nothing is folded); NOT proved: termination without the bound on the number of events "
               "(sub_id wrap, C01_optimize_terminates_statement), that analyze_stack's lists are sound (C01_fold_keeps_depth_full_statement: StackSoundAt from analyzeStack song = .ok m; "
@@ -61,7 +61,7 @@ LEVEL_NOTE = ("Trusted: Lean kernel; Spec/Tree + Spec/Expand (meaning of loops/b
               "< 32767, no explicit END event, LOOP_BREAKs without duration, tracks < 32767 events, subroutine ids stay below 32768; of C01_optimize_terminates_partial additionally: min_score >= 0 "
               "(for a negative threshold the pass loop does not end: a pass with score 0 changes nothing), int16_t call params (the model keeps params as unbounded Int: "
               "Ex2.analyzeStack_fuel_artefact), initialSubId + events < 32767.  That no intermediate song exceeds the depth limit is a theorem for loop-fold passes only under StackSoundAt "
-              "(soundness of analyze_stack's lists for the folded period: not proved; finding D28 was a counterexample with unused macro tracks, repaired in repo 6fc8560) and is otherwise "
+              "(soundness of analyze_stack's lists for the folded period: not proved; finding D28 was a counterexample with unused macro tracks, repaired in repo f7fbaab) and is otherwise "
               "decided per case by the oracle: every pass of every generated case must leave a validating song (family d18-budget walks the stack budget on both sides of its limits, "
               "family d28-chain the chains of unused macro tracks in every id order up to the validator's 10 frames).  "
               "The list-based model is quartic in the length of a run of equal phrases: the 1000-repetition cases of the D2 family are sent as `optx` (same harness handler), the model does "
